@@ -768,8 +768,17 @@ func (g *gen) makeIneligible(pi int, st *Step) {
 		if pc.LocalAS != 0 {
 			localAS = pc.LocalAS // the receiving session's own local AS
 		}
-		asns = append(asns, localAS, tag)
-		a.ASPath = []Segment{{Type: 2, ASNs: asns}}
+		switch {
+		case len(asns) > 0 && r.Chance(0.3):
+			// the loop shows only in a later segment: an aggregate's AS_SET
+			a.ASPath = []Segment{{Type: 2, ASNs: asns}, {Type: 1, ASNs: []uint32{64990, localAS}}, {Type: 2, ASNs: []uint32{tag}}}
+		case len(asns) > 0 && r.Chance(0.3):
+			// ... or a second AS_SEQUENCE
+			a.ASPath = []Segment{{Type: 2, ASNs: asns}, {Type: 2, ASNs: []uint32{localAS, tag}}}
+		default:
+			asns = append(asns, localAS, tag)
+			a.ASPath = []Segment{{Type: 2, ASNs: asns}}
+		}
 		st.Ineligible = "local ASN in AS_PATH"
 	case "originator":
 		a.OriginatorID = u32p(dut.RouterID)
